@@ -204,6 +204,11 @@ def main():
         names = [f['name'] for f, _, _ in d_features(d)]
         if k % 2 == 0:
             d['ctcs'] = [{'name': f'c{i}', 'ast': M.random_ctc(rng, names, 2)} for i in range(rng.randint(1, 2))]
+        if k % 5 == 1 and names:
+            # plain identifiers embedding operator words / differing only in case; deeper constraints (negation inside parentheses)
+            d['ctcs'] = [{'name': f'c{i}', 'ast': M.random_ctc(rng, names, 3)} for i in range(rng.randint(1, 2))]
+            d = with_wordy_names(d, rng)
+            names = [f['name'] for f, _, _ in d_features(d)]
         if k % 7 == 3 and names:
             # a name that embeds an operator word, and names with spaces / quotes-needing characters
             d = rename(d, {names[0]: 'NOT ' + names[0] if k % 2 else names[0] + ' AND more', names[-1]: names[-1] + '-x'})
